@@ -190,7 +190,7 @@ func (x *g) frag(last bool) (jl.Frag, string) {
 func (x *g) path() ([]jl.Frag, []string) {
 	p := []jl.Frag{jl.FRoot()}
 	var cls []string
-	n := 1 + x.r.Intn(3)
+	n := 1 + x.r.Intn(4)
 	for i := 0; i < n; i++ {
 		f, c := x.frag(i == n-1)
 		if c == "desc" && i == n-1 {
@@ -213,10 +213,10 @@ func gen(args []string) {
 	defer out.Flush()
 	for i := 0; i < *n; i++ {
 		x.ctr = 0
-		doc := x.tree(1 + x.r.Intn(3))
+		doc := x.tree(1 + x.r.Intn(4))
 		nt := 1
-		if x.r.Intn(4) == 0 {
-			nt = 2
+		if x.r.Intn(3) == 0 {
+			nt = 2 + x.r.Intn(2)
 		}
 		var ts [][]jl.Frag
 		clsSet := map[string]bool{}
